@@ -507,6 +507,17 @@ def _fold_simple(n: ast.AST, env: dict):
         except Exception:
             return _NO
         return _NO
+    if isinstance(n, ast.Call) and isinstance(n.func, ast.Attribute) and n.func.attr in ("lower", "upper", "strip", "casefold", "title", "encode") and not n.args and not n.keywords:
+        v = _fold_simple(n.func.value, env)
+        if isinstance(v, str) and n.func.attr != "encode":
+            return getattr(v, n.func.attr)()
+        return _NO
+    if isinstance(n, ast.Call) and isinstance(n.func, ast.Attribute) and n.func.attr == "join" and len(n.args) == 1 and isinstance(n.args[0], (ast.Tuple, ast.List)) and not n.keywords:
+        sep = _fold_simple(n.func.value, env)
+        parts = [_fold_simple(e, env) for e in n.args[0].elts]
+        if isinstance(sep, str) and all(isinstance(x, str) for x in parts):
+            return sep.join(parts)
+        return _NO
     if isinstance(n, ast.JoinedStr):
         out = ""
         for p in n.values:
